@@ -436,6 +436,8 @@ def spec_matches(c, spec):
         return False
     if spec == "refuse":
         return _re.match(r"^err -\d+", c) is not None
+    if spec.startswith("ends-with "):
+        return c.endswith(spec[len("ends-with "):])
     if spec.startswith("any-ok-or-refuse"):
         return True
     if " # " in spec:
@@ -472,7 +474,7 @@ PERTURBED = [
 ]
 # operations whose harness output is defined independently of these knobs ("alloc" arms the allocation ledger itself and
 # "threads" / digests ("sweep3", "rtgrange", "descrange") are aggregate runs)
-PERTURB_OPS = {"cls", "mp", "eap", "rtp", "it", "crc", "rssi", "ie", "gen", "tg", "rtg", "desc", "tagdump", "rmac", "tagname", "epoch"}
+PERTURB_OPS = {"cls", "mp", "eap", "rtp", "it", "crc", "rssi", "ie", "gen", "tg", "tgl", "rtg", "desc", "tagdump", "rmac", "tagname", "epoch"}
 
 
 def perturbed_rerun(ctx, exe, suite, lines, c_outs, m_outs, what, canon_c):
